@@ -9,9 +9,9 @@ bad=0
 while read -r dir id want; do
   case "$dir" in \#*|"") continue;; esac
   if [ $# -gt 0 ]; then m=0; for p in "$@"; do case "$dir" in $p*) m=1;; esac; done; [ $m = 1 ] || continue; fi
-  if ! git -C /repo apply seeded/$dir/patch.diff 2>/dev/null; then echo "SELFTEST $dir: patch does not apply any more"; bad=1; continue; fi
+  if ! git -C /repo apply /verif/seeded/$dir/patch.diff 2>/dev/null; then echo "SELFTEST $dir: patch does not apply any more"; bad=1; continue; fi
   out=$(./check $id quick 2>&1); rc=$?
-  git -C /repo apply -R seeded/$dir/patch.diff
+  git -C /repo apply -R /verif/seeded/$dir/patch.diff
   nv=$(echo "$out" | grep -c '^VIOLATION')
   if [ "$want" = caught ]; then
     if [ $rc -eq 1 ] && [ $nv -gt 0 ]; then echo "SELFTEST $dir: caught by $id ($nv violation lines)"; else echo "SELFTEST $dir: EXPECTED VIOLATION, got exit $rc"; bad=1; fi
